@@ -6,6 +6,7 @@ import (
 	"fmt"
 	"math/rand/v2"
 	"net/netip"
+	"slices"
 	"strings"
 	"sync"
 	"sync/atomic"
@@ -886,6 +887,213 @@ func concurrentRun(res *core.Result, r *rand.Rand, keyPrefix string) {
 	}
 }
 
+// peerRoute is the entry Peering.AddLink stores for a new link.
+func peerRoute(p netip.Addr) m.RoutingTableEntry {
+	return m.RoutingTableEntry{DstIP: p, NextHop: p, Source: m.RouteSourcePeer}
+}
+
+// churnRun: the clauses that must hold at every instant, observed while other goroutines change the table -
+// what the router's worker pool does all day. Stable destinations (one with a peer route and gossip routes, one
+// with gossip routes only) are never touched; churners add, remove and clean everything around them (lower and
+// higher addresses, same and other routing prefixes) and the housekeeping Clean runs concurrently.
+//   - readers: every lookup of a stable destination returns a route to exactly that destination, flagged as
+//     destination (and the peer route where one exists); no lookup panics;
+//   - at the end (all goroutines joined): every peer route that was added and not removed is there, every
+//     removed next hop is gone (an update must not be lost to a concurrent Clean).
+func churnRun(res *core.Result, r *rand.Rand, kind int, bulk int, keyPrefix string) {
+	cfg, routerIP, desc := realConfig(r, kind)
+	tbl := m.NewRoutingTable(cfg)
+	own16, _ := routerIP.Prefix(16)
+	var violated atomic.Bool
+	violate := func(sig, msg string) {
+		if violated.CompareAndSwap(false, true) {
+			res.Violate(sig, msg+" ["+desc+"]", map[string]any{"case_id": "churn", "config": desc})
+		}
+	}
+	relays := make([]netip.Addr, 8)
+	for i := range relays {
+		relays[i] = randAddrIn(r, m.RoutingAddressPrefix)
+	}
+	nh := randAddrIn(r, m.RoutingAddressPrefix) // the peer all gossip routes use as next hop
+	_, _ = tbl.AddRoute(peerRoute(nh))
+	mkGossip := func(rr *rand.Rand, dst netip.Addr) m.RoutingTableEntry {
+		routers := []netip.Addr{nh}
+		for k := rr.IntN(3); k > 0; k-- {
+			x := relays[rr.IntN(len(relays))]
+			if x != dst && !slices.Contains(routers, x) {
+				routers = append(routers, x)
+			}
+		}
+		delays := make([]uint16, len(routers)+1)
+		for i := range delays {
+			delays[i] = uint16(1 + rr.IntN(300))
+		}
+		return gossipVia(routerIP, dst, delays, routers...)
+	}
+	// stable destinations in the middle of the own prefix
+	stablePeer := randAddrIn(r, own16)
+	stableGossip := randAddrIn(r, own16)
+	_, _ = tbl.AddRoute(peerRoute(stablePeer))
+	for i := 0; i < 3; i++ {
+		_, _ = tbl.AddRoute(mkGossip(r, stablePeer))
+		_, _ = tbl.AddRoute(mkGossip(r, stableGossip))
+	}
+	if e, ok := tbl.LookupNearest(stableGossip); !ok || e == nil || e.DstIP != stableGossip {
+		res.Count("churn_runs_skipped_no_stable_route", 1)
+		return
+	}
+	// bulk: makes Clean take long enough to overlap other operations
+	for i := 0; i < bulk; i++ {
+		_, _ = tbl.AddRoute(mkGossip(r, randAddrIn(r, m.RoutingAddressPrefix)))
+	}
+	var stop atomic.Bool
+	var wg sync.WaitGroup
+	var lookups, churnOps, cleans atomic.Int64
+	guard := func(what string, fn func()) {
+		defer func() {
+			if p := recover(); p != nil {
+				violate("table-panic-under-concurrency", fmt.Sprintf("%s panicked while other goroutines changed the table: %v", what, p))
+			}
+		}()
+		fn()
+	}
+	for g := 0; g < 3; g++ {
+		wg.Add(1)
+		go func(g int) {
+			defer wg.Done()
+			for !stop.Load() && !violated.Load() {
+				for _, dst := range []netip.Addr{stablePeer, stableGossip} {
+					guard("LookupNearest", func() {
+						e, isDst := tbl.LookupNearest(dst)
+						if e == nil || !isDst || e.DstIP != dst {
+							violate("lookup-misses-existing-destination:concurrent", fmt.Sprintf("LookupNearest(%s) returned (%s, %v) while unrelated routes were being added and removed; the destination has had routes all the time", dst, entryStr(e), isDst))
+						} else if dst == stablePeer && e.Source != m.RouteSourcePeer {
+							violate("lookup-not-best:concurrent", fmt.Sprintf("LookupNearest(%s) returned %s although a direct-peer route exists all the time", dst, entryStr(e)))
+						}
+					})
+					guard("LookupNearestRoute", func() {
+						e, isDst := tbl.LookupNearestRoute(dst)
+						if e == nil || !isDst || e.DstIP != dst {
+							violate("lookup-misses-existing-destination:concurrent", fmt.Sprintf("LookupNearestRoute(%s) returned (%s, %v) while unrelated routes were being added and removed; the destination has had routes all the time", dst, entryStr(e), isDst))
+						}
+					})
+					lookups.Add(2)
+				}
+			}
+		}(g)
+	}
+	// churners: unrelated destinations come and go
+	for g := 0; g < 2; g++ {
+		wg.Add(1)
+		rr := rand.New(rand.NewPCG(r.Uint64(), uint64(g)))
+		go func() {
+			defer wg.Done()
+			var mine []netip.Addr
+			for !stop.Load() && !violated.Load() {
+				guard("AddRoute/RemoveDisconnected", func() {
+					if len(mine) < 40 || rr.IntN(2) == 0 {
+						pfx := own16
+						if rr.IntN(3) == 0 {
+							pfx = m.RoutingAddressPrefix
+						}
+						d := randAddrIn(rr, pfx)
+						if d == stablePeer || d == stableGossip {
+							return
+						}
+						_, _ = tbl.AddRoute(mkGossip(rr, d))
+						mine = append(mine, d)
+					} else {
+						i := rr.IntN(len(mine))
+						tbl.RemoveDisconnected(mine[i], nil)
+						mine = append(mine[:i], mine[i+1:]...)
+					}
+					churnOps.Add(1)
+				})
+			}
+		}()
+	}
+	// housekeeping
+	wg.Add(1)
+	go func() {
+		defer wg.Done()
+		for !stop.Load() && !violated.Load() {
+			guard("Clean", func() { tbl.Clean() })
+			cleans.Add(1)
+		}
+	}()
+	// link manager: peers come (AddLink's route) and go (RemoveLink's RemoveNextHop) while all of that runs
+	var added, removed []netip.Addr
+	guard("peer routes", func() {
+		for i := 0; i < 60 && !violated.Load(); i++ {
+			p := randAddrIn(r, m.RoutingAddressPrefix)
+			if ok, err := tbl.AddRoute(peerRoute(p)); err != nil || !ok {
+				continue
+			}
+			_, _ = tbl.AddRoute(gossipVia(routerIP, randAddrIn(r, m.RoutingAddressPrefix), []uint16{5, 6}, p))
+			added = append(added, p)
+			if i%3 == 2 {
+				q := added[r.IntN(len(added))]
+				if !slices.Contains(removed, q) {
+					tbl.RemoveNextHop(q)
+					removed = append(removed, q)
+				}
+			}
+			time.Sleep(time.Duration(50+r.IntN(300)) * time.Microsecond)
+		}
+	})
+	stop.Store(true)
+	wg.Wait()
+	if violated.Load() {
+		return
+	}
+	es := tbl.VerifEntries()
+	have := map[netip.Addr]bool{}
+	for _, e := range es {
+		if e.Source == m.RouteSourcePeer {
+			have[e.DstIP] = true
+		}
+	}
+	for _, p := range added {
+		gone := slices.Contains(removed, p)
+		if !gone && !have[p] {
+			violate("peer-route-lost:concurrent", fmt.Sprintf("the direct-peer route for %s was added ('added' = true) and never removed, but is gone after housekeeping ran concurrently", p))
+			return
+		}
+		if gone {
+			for _, e := range es {
+				if e.NextHop == p {
+					violate("removed-next-hop-survives:concurrent", fmt.Sprintf("a route to %s via %s is in the table although RemoveNextHop(%s) returned, with housekeeping running concurrently", e.DstIP, p, p))
+					return
+				}
+			}
+		}
+	}
+	res.Count("churn_runs", 1)
+	res.Count("churn_lookups_of_stable_destinations", lookups.Load())
+	res.Count("churn_concurrent_changes", churnOps.Load())
+	res.Count("churn_concurrent_cleans", cleans.Load())
+	res.Case(fmt.Sprintf("%schurn:%s:%d:%d", keyPrefix, desc, bulk, len(added)), true)
+}
+
+// gossipVia is gossip() for an arbitrary own address.
+func gossipVia(own, dst netip.Addr, delays []uint16, routers ...netip.Addr) m.RoutingTableEntry {
+	full := append(append([]netip.Addr{}, routers...), dst)
+	hops := make([]m.SwitchHop, 0, len(full)+1)
+	hops = append(hops, hop(own, delays[0], 7, 0))
+	for i, x := range full {
+		fl := m.SwitchLabel(10 + i)
+		if i == len(full)-1 {
+			fl = 0
+		}
+		d := uint16(0)
+		if i+1 < len(delays) {
+			d = delays[i+1]
+		}
+		hops = append(hops, hop(x, d, fl, m.SwitchLabel(20+i)))
+	}
+	return m.RoutingTableEntry{DstIP: dst, NextHop: routers[0], Path: m.SwitchPath{Hops: hops}, Source: m.RouteSourceGossip}
+}
+
 func snapshotNoExpiry(t *m.RoutingTable) ([]m.RoutingTableEntry, string) {
 	es := t.VerifEntries()
 	var b strings.Builder
@@ -906,6 +1114,9 @@ func run(c *core.Ctx) {
 			r := core.RNG(fmt.Sprintf("c11/race/%d", w))
 			for i := w; i < n; i += 4 {
 				concurrentRun(res, r, "race:")
+			}
+			for i := 0; i < c.Q(1, 6); i++ {
+				churnRun(res, r, (w+i)%3, 1500, "race:")
 			}
 		})
 		return
@@ -945,6 +1156,13 @@ func run(c *core.Ctx) {
 			concurrentRun(res, r, "")
 		}
 	})
+	parallel(4, func(w int) {
+		r := core.RNG(fmt.Sprintf("c11/churn/%d", w))
+		for i := 0; i < c.Q(3, 30); i++ {
+			churnRun(res, r, (w+i)%3, []int{500, 3000, 12000}[i%3], "")
+		}
+	})
+	res.Require(res.Counter("churn_runs") >= 6 || res.ViolationCount() > 0, "too few concurrent churn runs completed")
 	res.Assume("paths are the forms the system produces: peer routes with an empty or 2-hop path, gossip routes with >= 3-hop simple paths")
 	res.Assume("the per-prefix bound allows 3 more gossip routes per direct-peer destination in that prefix (peers enter without the admission test; see DESIGN.md C11)")
 	res.Assume("ageing is simulated by moving expiries (hook VerifAgeEntries) by >= 30 min; no oracle depends on sub-minute timing")
